@@ -105,6 +105,11 @@ class PVLGrammar:
     sequence_delimiters = ("(", ")")
     units_delimiters = ("<", ">")
 
+    # [sign](digits[.[digits]] | .digits)[(E|e)[sign]digits]
+    decimal_re = re.compile(
+        r"[+-]?([0-9]+\.?[0-9]*|\.[0-9]+)([eE][+-]?[0-9]+)?"
+    )
+
     # [sign]radix#non_decimal_integer#
     _s = r"(?P<sign>[+-]?)"
     nondecimal_pre_re = re.compile(fr"{_s}(?P<radix>2|8|16)#")
